@@ -17,7 +17,40 @@ class protect(Command):
     pass
 
 class global_(Command):
+    """
+    \\global -- the assignment that follows is made in the global namespace
+
+    The next macro (skipping further prefixes such as \\long) is invoked
+    here; if it is an assignment that can be local (it has a `local`
+    attribute: \\def, \\edef, \\let) it is told to be global first.
+
+    """
     macroName = 'global'
+
+    def invoke(self, tex):
+        output = [self]
+        for tok in tex.itertokens():
+            if tok is None:
+                continue
+            # Not a macro: nothing to prefix
+            if tok.nodeType == Command.ELEMENT_NODE or tok.macroName is None:
+                tex.pushToken(tok)
+                break
+            obj = self.ownerDocument.createElement(tok.macroName)
+            obj.contextDepth = tok.contextDepth
+            obj.parentNode = tok.parentNode
+            if hasattr(obj, 'local'):
+                obj.local = False
+            tokens = obj.invoke(tex)
+            if tokens is None:
+                output.append(obj)
+            else:
+                output.extend(tokens)
+            # \global\long\def: keep looking for the assignment
+            if isinstance(obj, long):
+                continue
+            break
+        return output
 
 class par(Command):
     """ Paragraph """
@@ -369,9 +402,10 @@ class ifcsname(IfCommand):
 class let(Command):
     """ \\let """
     args = 'name:Tok = value:Tok'
+    local = True
     def invoke(self, tex):
         a = self.parse(tex)
-        self.ownerDocument.context.let(a['name'], a['value'])
+        self.ownerDocument.context.let(a['name'], a['value'], local=self.local)
 
 class char(Command):
     """ \\char """
